@@ -64,17 +64,25 @@ SPACES = {
          dict(variants=("Vertex", "FalsyLen"), unis="all-subsets", labels="-ABZN")),
     ],
 }
+_FAMCFG = dict(variants=("Vertex", "FalsyBool"), unis="few", starts="few", labels="-AN", labellings="few")
+SPACES["quick"] += [(sp, _FAMCFG) for sp in engine_g.family_specs(list(range(4, 13)) + [16, 17])]
+SPACES["thorough"] += [(sp, _FAMCFG) for sp in engine_g.family_specs(list(range(4, 13)) + [16, 17, 32, 33])]
 _cfg = None
 
 
 def _plain(spec):
-    return {k: (list(v) if isinstance(v, tuple) else v) for k, v in spec.items() if k != "vclasses"}
+    return {k: (list(v) if isinstance(v, tuple) else v) for k, v in spec.items() if k not in ("vclasses", "explicit")}
 
 
 def unis_for(w, mode):
     nv = len(w.v)
     out = [("none", None, frozenset(range(nv)))]
     if mode == "none-only":
+        return out
+    if mode == "few":
+        mid = nv // 2
+        for s in (tuple(range(nv)), tuple(i for i in range(nv) if i != mid)):
+            out.append(("m" + "-".join(map(str, s)), Universe(vertices=[w.v[i] for i in s]), frozenset(s)))
         return out
     if mode == "all-subsets":
         subsets = [s for n in range(1, nv + 1) for s in itertools.combinations(range(nv), n)]
@@ -136,7 +144,15 @@ def per_state(spec, seq, w0):
     evals = nontriv = 0
     viols = []
     sq = [list(o) for o in seq]
-    labellings = list(itertools.product(cfg["labels"], repeat=nv))
+    if cfg.get("labellings") == "few":
+        # larger graphs: a handful of labellings instead of all |labels|^n
+        mid = nv // 2
+        labellings = [tuple("A" * nv), tuple("A" if i % 2 else "-" for i in range(nv)),
+                      tuple("A" if i == nv - 1 else "-" for i in range(nv)),
+                      tuple("A" if i in (mid, nv - 1) else "-" for i in range(nv)),
+                      tuple("N" if i == mid else ("A" if i == nv - 1 else "-") for i in range(nv))]
+    else:
+        labellings = list(itertools.product(cfg["labels"], repeat=nv))
     soughts = [("k", x) for x in cfg["labels"] if x != "-"] + [("k", "absent"), ("nosuch", "A"), ("nosuch", "N")]
     for vname in cfg["variants"]:
         spec2 = dict(spec, vclasses=[VCLASSES[vname]] * nv)
@@ -144,8 +160,9 @@ def per_state(spec, seq, w0):
         unis = unis_for(w, cfg["unis"])
         # traversal lists do not depend on the labelling
         trav = {}
+        few = cfg.get("starts") == "few"
         for uname, uni, members in unis:
-            for s in sorted(members):
+            for s in (sorted({0, nv // 2, nv - 1} & set(members)) if few else sorted(members)):
                 for sname, (_, tfn) in SEARCHES.items():
                     try:
                         trav[(uname, s, sname)] = [w.vid(x) for x in tfn(uni, w.v[s])]
@@ -156,7 +173,7 @@ def per_state(spec, seq, w0):
             present = set(lab) - {"-"}
             for uname, uni, members in unis:
                 ukind = "none" if uni is None else ("all" if len(members) == nv else "partial")
-                for s in sorted(members):
+                for s in (sorted({0, nv // 2, nv - 1} & set(members)) if few else sorted(members)):
                     for sname in SEARCHES:
                         tl = trav[(uname, s, sname)]
                         for attr, sought in soughts:
